@@ -6,6 +6,8 @@ pub mod c09;
 pub mod c11;
 pub mod c12;
 pub mod c18;
+pub mod c19;
+pub mod c20;
 pub mod selftest;
 
 pub fn dispatch(id: &str, tier: Tier, seed: u64, rest: &[String]) -> i32 {
@@ -16,6 +18,8 @@ pub fn dispatch(id: &str, tier: Tier, seed: u64, rest: &[String]) -> i32 {
         "C05" => c05::main(tier, seed),
         "C09" => c09::main(tier, seed),
         "C12" => c12::main(tier, seed),
+        "C20" => c20::main(tier, seed),
+        "C19" => c19::main(tier, seed),
         "C18" => c18::main(tier, seed),
         "C11" => c11::main(tier, seed),
         _ => {
